@@ -509,6 +509,8 @@ func probe(s *Sess, o *sim.Outcome, test string) {
 
 func init() {
 	reg("C13strayake", runRecv)
+	reg("C13truncations", runParser)
+	reg("C13truncrecv", runRecv)
 	reg("C13parsers", runParser)
 	reg("C13receive", runRecv)
 	reg("C13faults", runFault)
@@ -884,4 +886,66 @@ func TestProp_C13_OddKeys(t *testing.T) {
 		}
 	}
 	sim.MarkCompleted("C13oddkeys", true)
+}
+
+// ---- every cut of genuine traffic (C13): messages that end after any number of bytes ----
+
+// TestProp_C13_Truncations: every message of a real session (key exchange, data messages, both versions, whole and
+// in fragments) is cut after each of its first 40 and last 8 decoded bytes and re-armoured, and cut after each of the
+// first 24 and last 6 characters of its text form; every cut goes to the tag extraction helper that clients call on
+// whatever arrives, and the decoded-body cuts go to Receive of a fresh conversation and of one in the session.
+func TestProp_C13_Truncations(t *testing.T) {
+	defer sim.ClearCrumb()
+	si, sn := sim.Shard()
+	idx := 0
+	for _, v := range []int{3, 2} {
+		for _, frag := range []int{0, 60} {
+			cfg := SessCfg{V: v, SeedA: 1500, SeedB: 1601, KeyA: 0, KeyB: 3, FragB: frag}
+			s := newSess(&SessScript{Cfg: cfg}, &sim.Outcome{})
+			s.Handshake(1)
+			s.Exec(SOp{K: "pp", W: 1, L: 10})
+			seen := map[string]bool{}
+			var wires [][]byte
+			for _, wr := range s.W.Log {
+				if k := string(wr.Data[:min(len(wr.Data), 14)]); wr.From == 1 && !seen[k] {
+					seen[k] = true
+					wires = append(wires, wr.Data)
+				}
+			}
+			for _, wire := range wires {
+				var cuts [][]byte
+				for n := 0; n <= len(wire); n++ {
+					if n <= 24 || n >= len(wire)-6 {
+						cuts = append(cuts, wire[:n])
+					}
+				}
+				var bodyCuts [][]byte
+				if raw, ok := ref.Dearmor(wire); ok {
+					for n := 0; n <= len(raw); n++ {
+						if n <= 40 || n >= len(raw)-8 {
+							bodyCuts = append(bodyCuts, ref.Armor(raw[:n]))
+						}
+					}
+				}
+				for _, in := range append(cuts, bodyCuts...) {
+					idx++
+					if idx%sn != si {
+						continue
+					}
+					sim.Judge(t, "C13truncations", &ParserCase{Fn: "ExtractInstanceTags", In: in})
+				}
+				for _, in := range bodyCuts {
+					for _, state := range []int{0, 5} {
+						idx++
+						if idx%sn != si {
+							continue
+						}
+						sim.Judge(t, "C13truncrecv", &RecvCase{Cfg: SessCfg{V: v, SeedA: 1500, SeedB: 1601, KeyA: 0, KeyB: 3}, PolA: 0, State: state, Kind: 0, Raw: in})
+					}
+				}
+			}
+		}
+	}
+	sim.MarkCompleted("C13truncations", true)
+	sim.MarkCompleted("C13truncrecv", true)
 }
